@@ -10,7 +10,8 @@
      - while the model says the loop is blocked (dl_wait <> []) a request stays in the loop's
        channel and a tick stays in ticker.C (capacity 1: a second one is dropped); when the
        loop is unblocked by a K/C at time now, the pending ones are taken at time now -- the
-       pending tick after [tickpos] pending requests (select's choice);
+       pending tick after [tickpos] pending requests (select's choice; tickpos=a,b,c gives one value per
+       unblocking at which both kinds are pending, the last one is reused);
      - after every step each eager queue (mode e) is emptied by DlTake events at that time.
    Output: A:<q>:<id>:<t> per received task in order, K:<q>:<now>:<got|empty>, then
    pq= wait= dis= roomy= spaced= timely= mono= rerun= (the theorems' boolean hypotheses on the
@@ -24,7 +25,7 @@ let split_on c s = String.split_on_char c s
 
 let run_c10 (toks : string list) : string =
   let caps = ref [] and modes = ref [] and front = ref 0 in
-  let period = ref (z_of_string "1000000000") and t0 = ref Z0 and tickpos = ref 0 in
+  let period = ref (z_of_string "1000000000") and t0 = ref Z0 and tickposs = ref [0] in
   let raw = ref [] and dump = ref false in
   List.iter (fun t ->
     if t = "dump=1" then dump := true else
@@ -38,7 +39,7 @@ let run_c10 (toks : string list) : string =
     else if String.length t > 3 && String.sub t 0 3 = "pq=" then front := int_of_string (String.sub t 3 (String.length t - 3))
     else if String.length t > 2 && String.sub t 0 2 = "P=" then period := z_of_string (String.sub t 2 (String.length t - 2))
     else if String.length t > 3 && String.sub t 0 3 = "t0=" then t0 := z_of_string (String.sub t 3 (String.length t - 3))
-    else if String.length t > 8 && String.sub t 0 8 = "tickpos=" then tickpos := int_of_string (String.sub t 8 (String.length t - 8))
+    else if String.length t > 8 && String.sub t 0 8 = "tickpos=" then tickposs := List.map int_of_string (split_on ',' (String.sub t 8 (String.length t - 8)))
     else raw := !raw @ [t]) toks;
   let impl = dl_pick (nat_of_int !front) in
   let st = ref (dl_init impl !caps) in
@@ -71,6 +72,10 @@ let run_c10 (toks : string list) : string =
     eager_drain now;
     if not (blocked ()) then begin
       let n_done = ref 0 in
+      (* select's choice at THIS unblocking: the pending tick is taken after [tickpos] pending requests *)
+      let tickpos = ref (match !tickposs with [] -> 0 | x :: _ -> x) in
+      if !pend_tick && !pend_recv <> [] then
+        (match !tickposs with _ :: (_ :: _ as rest) -> tickposs := rest | _ -> ());
       let continue = ref true in
       while !continue && not (blocked ()) do
         if !pend_tick && (!n_done >= !tickpos || !pend_recv = []) then begin
